@@ -533,6 +533,37 @@ def _extract(repo: Path):
             break
     if k is None:
         raise Unsupported("statement `edges = np.array(<list>, dtype=node_id_dtype)` not found")
+    # the array built from <list> must BE the edge array that is returned: after that statement the
+    # variable may only be reshaped to (0, 2) when empty, and it must be what "edge_ids" returns
+    arr = fn.body[k].targets[0].id if isinstance(fn.body[k].targets[0], ast.Name) else None
+    if arr is None:
+        raise Unsupported("edge array is not assigned to a plain name")
+    for later in fn.body[k + 1:]:
+        for n in ast.walk(later):
+            tgts = []
+            if isinstance(n, ast.Assign):
+                tgts = n.targets
+            elif isinstance(n, (ast.AugAssign, ast.AnnAssign)):
+                tgts = [n.target]
+            for t in tgts:
+                for nm in ast.walk(t):
+                    if isinstance(nm, ast.Name) and nm.id == arr:
+                        v = n.value if not isinstance(n, ast.AugAssign) else None
+                        ok = (isinstance(n, ast.Assign) and isinstance(t, ast.Name) and isinstance(v, ast.Call)
+                              and isinstance(v.func, ast.Attribute) and v.func.attr == "reshape"
+                              and isinstance(v.func.value, ast.Name) and v.func.value.id == arr
+                              and ast.unparse(v.args[0]) == "(0, 2)" if v is not None and v.args else False)
+                        if not ok:
+                            raise Unsupported(f"edge array `{arr}` is modified after its construction ({_where(n)}): "
+                                              f"{ast.unparse(n)[:80]}")
+            if isinstance(n, ast.Call) and isinstance(n.func, ast.Attribute) and isinstance(n.func.value, ast.Name) \
+                    and n.func.value.id in (arr, res) and n.func.attr in ("append", "extend", "insert", "pop", "sort",
+                                                                          "resize", "fill", "put", "itemset"):
+                raise Unsupported(f"`{n.func.value.id}` is mutated after the edge array is built ({_where(n)})")
+    rets = [n for n in ast.walk(fn) if isinstance(n, ast.Return) and isinstance(n.value, ast.Dict)]
+    if not rets or not any(isinstance(kk, ast.Constant) and kk.value == "edge_ids" and isinstance(vv, ast.Name) and vv.id == arr
+                           for r in rets for kk, vv in zip(r.value.keys, r.value.values)):
+        raise Unsupported(f"the returned dict does not map \"edge_ids\" to `{arr}`")
     j = k
     while j > 0 and _stmt_in_subset(fn.body[j - 1]):
         j -= 1
